@@ -10,7 +10,7 @@ import sys
 ROOT = os.path.dirname(os.path.dirname(os.path.abspath(__file__)))
 sys.path.insert(0, ROOT)
 from sa.roles import local_signatures  # noqa: E402
-from sa.loader import _Normalise  # noqa: E402
+from sa.normal import normalise  # noqa: E402
 
 repo = sys.argv[1] if len(sys.argv) > 1 else "/repo"
 out = {}
@@ -18,7 +18,7 @@ pkg = os.path.join(repo, "buidl")
 for fn in sorted(os.listdir(pkg)):
     if not fn.endswith(".py"):
         continue
-    tree = ast.fix_missing_locations(_Normalise().visit(ast.parse(open(os.path.join(pkg, fn), encoding="utf-8").read())))
+    tree = normalise(ast.parse(open(os.path.join(pkg, fn), encoding="utf-8").read()))
 
     def visit(body, prefix):
         for st in body:
